@@ -288,24 +288,47 @@ def run(ctx, rep):
     rep.check("C04.f", "password-verbatim", not norm, where="crates/core/src/repository/credentials.rs", what="credential readers strip at most one line ending; no trimming/normalising of the password" if not norm else f"the password is normalised before use ({norm}): different passwords open the same repository")
     # ---- C04.f ------------------------------------------------------------------------------------
     # the key-derivation input is the password as given, identically when a key is created and when it is checked
-    kdf_sites = []
-    for b in prog.by_crate["rustic_core"]:
-        if "repofile::keyfile" not in b.path:
-            continue
+    # scrypt may be applied in the two entry points themselves or in a helper of the module they share; every link between
+    # the entry point's password parameter and scrypt's input is checked to be verbatim
+    ADAPT = r"convert::AsRef<.*>>::as_ref$|AsRef::as_ref$|ops::Deref>::deref$|::as_bytes$|::as_slice$|borrow::Borrow"
+
+    def verbatim(b, bb, op):
+        """(extra calls, parameter indices) of the expression handed on at this link"""
+        e = flow.expr_of(b, op, bb)
+        _, cs = flow.expr_mentions(e)
+        extra = sorted(c for c in cs if not re.search(ADAPT, c))
+        return extra, sorted({int(x) for x in re.findall(r"\('arg', (\d+)\)", repr(e))})
+
+    def kdf_chain(b, depth=0):
+        """[(body, block, operand)] links from b's parameter to scrypt's first argument, or None"""
         for bb, t in b.calls():
             if "callee" in t and re.search(r"^scrypt::scrypt$", callee(t)):
-                kdf_sites.append((b, bb, t))
-    rep.require("C04.f", "kdf-sites", len(kdf_sites) >= 2, where="crates/core/src/repofile/keyfile.rs", what=f"scrypt is applied when a key is generated and when a password is checked ({len(kdf_sites)} sites)")
+                return [(b, bb, t["args"][0])]
+        if depth >= 2:
+            return None
+        for bb, t in b.calls():
+            h = prog.bodies.get(callee(t)) if "callee" in t else None
+            if h is None or "repofile::keyfile" not in h.path or h is b:
+                continue
+            sub = kdf_chain(h, depth + 1)
+            if sub:
+                ex, ai = verbatim(sub[0][0], sub[0][1], sub[0][2])
+                if len(ai) == 1 and ai[0] - 1 < len(t["args"]):
+                    return [(b, bb, t["args"][ai[0] - 1])] + sub
+        return None
+    entries = prog.find(r"^rustic_core::repofile::keyfile::KeyFile::(generate|kdf_key)$")
+    chains = [(b, kdf_chain(b)) for b in entries]
+    kdf_sites = [(b, ch) for b, ch in chains if ch]
+    rep.require("C04.f", "kdf-sites", len(kdf_sites) >= 2, where="crates/core/src/repofile/keyfile.rs", what=f"scrypt is applied when a key is generated and when a password is checked ({len(kdf_sites)} of KeyFile::generate / KeyFile::kdf_key reach it)")
     shapes = []
-    for (b, bb, t) in kdf_sites:
-        e = flow.expr_of(b, t["args"][0], bb)
-        _, cs = flow.expr_mentions(e)
-        # only reference / AsRef adaptors between the password parameter and scrypt
-        extra = sorted(c for c in cs if not re.search(r"convert::AsRef<.*>>::as_ref$|AsRef::as_ref$|ops::Deref>::deref$|::as_bytes$|::as_slice$|borrow::Borrow", c))
-        leaf_args = {x for x in re.findall(r"\('arg', (\d+)\)", repr(e))}
-        ok = not extra and len(leaf_args) == 1
+    for (b, ch) in kdf_sites:
+        extra, ok = [], True
+        for (lb, lbb, lop) in ch:
+            ex, ai = verbatim(lb, lbb, lop)
+            extra += ex
+            ok = ok and not ex and len(ai) == 1
         shapes.append(tuple(extra))
-        rep.check("C04.f", f"kdf-input-is-password/{fn_key(b)}", ok, where=where(b, bb), what=f"{fn_key(b)}: scrypt is applied to the password exactly as passed in" if ok else
+        rep.check("C04.f", f"kdf-input-is-password/{fn_key(b)}", ok, where=where(ch[-1][0], ch[-1][1]), what=f"{fn_key(b)}: scrypt is applied to the password exactly as passed in" if ok else
                   f"{fn_key(b)}: the password is transformed before key derivation ({[strip_crate(x) for x in extra]}): creating a key and checking a password no longer agree for some passwords")
     FK = prog.find1(r"^rustic_core::repofile::keyfile::find_key_in_backend$")
     codes = []
